@@ -157,7 +157,14 @@ async function tsCall(op, serverSide) {
     rec.response = await respOut(copy);
     return resp;
   };
-  const client = new Client(op.base, { ...(op.client_opts ?? {}), fetch: fetchFn });
+  const opts = { ...(op.client_opts ?? {}), fetch: fetchFn };
+  const client = new Client(op.base, opts);
+  // a SECOND client of the class, built afterwards from the caller's same `defaultHeaders` object with other
+  // typed header values (two tenants of one application sharing a base header set): what one client is given
+  // must not show in the calls of another. It makes no call itself.
+  if (opts.defaultHeaders && op.decoy_opts) {
+    try { new Client(op.base, { ...op.decoy_opts, defaultHeaders: opts.defaultHeaders, fetch: fetchFn }); } catch (_e) { /* not this client's business */ }
+  }
   if (typeof client[op.rpc] !== "function") return { ...out, harness_err: "no method " + op.rpc };
   try {
     out.result = await client[op.rpc](op.req, op.call_opts ?? undefined);
